@@ -269,6 +269,97 @@ def jfx (pi dt absd absc a b x y : K) : Mat K :=
 
 end JfxModel
 
+/-! ## Which columns of `Yf`, `Yp` enter which block of `build_hank` (slice clipping) -/
+
+/-- `(start, stop)` of the column slice `[k*Nb : (k+1)*Nb]` of an array with `ncols` columns as numpy
+    evaluates it: both ends are clipped to `ncols` (an empty slice when `k*Nb ≥ ncols`). -/
+def blockCols (ncols Nb k : Nat) : Nat × Nat := (min (k * Nb) ncols, min ((k + 1) * Nb) ncols)
+
+/-- the block estimate written as the explicit sum over the columns `blockCols` names
+    (`C17_blockEst_explicit`: this IS `blockEst`): the products of the columns `start ≤ t < stop`,
+    times `N`, divided by `Nb` — by `Nb` also when the slice was clipped to fewer than `Nb` columns. -/
+def blockEstR [Zero K] [Add K] [Mul K] [Div K] [NatCast K] (Yf Yp : Mat K) (N Nb k : Nat) : Mat K :=
+  let ab := blockCols Yf.c Nb k
+  ⟨Yf.r, Yp.r, fun i j =>
+    sumTo (ab.2 - ab.1) (fun t => Yf.e i (ab.1 + t) * Yp.e j (ab.1 + t)) * (N : K) / (Nb : K)⟩
+
+/-- the columns of `Yf`, `Yp` that enter no block (`Hank` alone uses them): `nb·Nb ≤ t < ncols`. -/
+def leftoverCols (ncols Nb nb : Nat) : Nat × Nat := (min (nb * Nb) ncols, ncols)
+
+/-! ## The tables `Fn_cov`, `Xi_cov` of `SSI_poles` (allocation, order loop, pole loop, writes)
+
+`step = 1` (the routines crash for other steps).  Per order `ii` the code calls `ac2mp` (external `eig`,
+`log`, `abs`) and `np.linalg.inv`; what they returned is the record `OrderRec`. -/
+
+/-- what `ac2mp(AA[ii], CC[ii], dt, calc_unc=True)`, `np.abs` and `np.linalg.inv(O_p.T·O_p)` returned at one
+    order. -/
+structure OrderRec (R K : Type) where
+  /-- `len(lam_c)` (the bound of the pole loop) -/
+  np : Nat
+  /-- `lam_d` -/
+  lamd : Nat → K
+  /-- `lam_c` -/
+  lamc : Nat → K
+  /-- `np.abs(lam_d[jj])` -/
+  absd : Nat → R
+  /-- `np.abs(lam_c[jj])` -/
+  absc : Nat → R
+  /-- `l_eigvt` (columns are the left eigenvectors; the code conjugates them) -/
+  lv : Mat K
+  /-- `r_eigvt` -/
+  rv : Mat K
+  /-- `OO` -/
+  oo : Mat R
+
+/-- `Fn_cov`, `Xi_cov` (shape `ordmax × (ordmax + 1)`; `none` = NaN) -/
+structure CovTabs (R : Type) where
+  fn : Nat → Nat → Option R
+  xi : Nat → Nat → Option R
+
+/-- `tab[i, j] = v` -/
+def setCell {R : Type} (tab : Nat → Nat → Option R) (i j : Nat) (v : R) : Nat → Nat → Option R :=
+  fun a b => if a = i ∧ b = j then some v else tab a b
+
+section Table
+variable {R K : Type} [Zero R] [One R] [Add R] [Sub R] [Neg R] [Mul R] [Div R] [NatCast R] [Inhabited R]
+  [Zero K] [One K] [Add K] [Neg K] [Mul K] [Div K] [Inhabited K]
+
+/-- the body of the pole loop up to `cov_fx = np.dot(Ufx, Ufx.T)` (eqs 44, Lemma 5, 43, 42, 40) for pole
+    `jj` at order `n = ii`: the `jj`-th entries of `lam_d`, `lam_c` and the `jj`-th COLUMNS of `r_eigvt`,
+    `l_eigvt` (conjugated), with `PnQ1`, `PnQ2_Q3`, `OO` of this order. -/
+def covFx (ι : R → K) (re im : K → R) (conj : K → K) (pi dt : R) (n : Nat) (P1 P23 : Mat R)
+    (rc : OrderRec R K) (jj : Nat) : Mat R :=
+  let phi := col rc.rv jj
+  let chi : Nat → K := fun m => conj (rc.lv.e m jj)
+  let Qi := qiOf ι n phi (rc.lamd jj) P1 P23
+  let J := jfx pi dt (rc.absd jj) (rc.absc jj) (re (rc.lamc jj)) (im (rc.lamc jj)) (re (rc.lamd jj))
+    (im (rc.lamd jj))
+  let U := ufxOf re im J (jaohT ι n chi phi rc.oo Qi)
+  mulT U U
+
+/-- `for jj in range(len(lam_c)): …; Fn_cov[jj, ii] = abs(cov_fx[0, 0]); Xi_cov[jj, ii] = abs(cov_fx[1, 0])`
+    at order `ii`, after `PnQ1`, `PnQ2_Q3` of this order were formed; `none` = `IndexError` (row `jj`
+    outside the `ordmax` rows of the tables). -/
+def orderPass (ι : R → K) (re im : K → R) (conj : K → K) (absR : R → R) (pi dt : R) (ordmax : Nat)
+    (Q1 Q2 Q3 : Mat R) (rc : OrderRec R K) (ii : Nat) (t : CovTabs R) : Option (CovTabs R) :=
+  let P1 := pnQ1 ii ordmax Q1
+  let P23 := pnQ23 ii ordmax Q2 Q3
+  (List.range rc.np).foldlM (fun t jj =>
+    if jj < ordmax then
+      let c := covFx ι re im conj pi dt ii P1 P23 rc jj
+      some ⟨setCell t.fn jj ii (absR (c.e 0 0)), setCell t.xi jj ii (absR (c.e 1 0))⟩
+    else none) t
+
+/-- `Fn_cov = Xi_cov = np.full((ordmax, ordmax + 1), np.nan)`, then
+    `for ii in range(1, ordmax + 1): …` with `recs ii` the external results at order `ii`. -/
+def covTables (ι : R → K) (re im : K → R) (conj : K → K) (absR : R → R) (pi dt : R) (ordmax : Nat)
+    (Q1 Q2 Q3 : Mat R) (recs : Nat → OrderRec R K) : Option (CovTabs R) :=
+  (List.range' 1 ordmax).foldlM (fun t ii =>
+    orderPass ι re im conj absR pi dt ordmax Q1 Q2 Q3 (recs ii) ii t)
+    ⟨fun _ _ => none, fun _ _ => none⟩
+
+end Table
+
 
 end Unc
 end PV
